@@ -90,6 +90,7 @@ def world():
         LeafSpec("L2", e, spaces.ABCN, spaces.SIB),
         LeafSpec("M2", e, spaces.ABCN, spaces.SIB),
         LeafSpec("Eloose", e, spaces.ABCN, (), min_rows=0, max_rows=3),
+        LeafSpec("Ltwin", e, spaces.ABCN, spaces.SIB, leaf_name="L"),
     )
     return World(engines=(("e1", "it"), ("e2", "it")), leaves=leaves)
 
@@ -112,6 +113,7 @@ LAZY = (
     ("chain", ("M2",)),
     ("chain", ("Eloose",)),
     ("chain", ("M2", ("sel", spaces.P_A_GT_1))),
+    ("chain", ("Ltwin",)),
 )
 EAGER = (
     ("dedup",),
@@ -125,7 +127,7 @@ EAGER = (
 EAGER_OPS = (Sort, Deduplication)
 
 
-def leaf_profile(rel, leaf_payloads=()):
+def leaf_profile(rel, leaf_payloads=(), by_payload=None):
     """{leaf name: (occurrences, occurrences not under any eager op, occurrences under a materialization)}
 
     A Materialization whose cached payload *is* a leaf's own payload object (its input was already
@@ -133,12 +135,14 @@ def leaf_profile(rel, leaf_payloads=()):
     is reading that leaf payload, which is not a re-evaluation of anything."""
     prof = {}
     leaf_payload_ids = {id(p) for p in leaf_payloads}
+    by_payload = by_payload or {}
 
     def w(n, eager, mat):
         match n:
             case LeafRelation():
-                o, f, m = prof.get(n.name, (0, 0, 0))
-                prof[n.name] = (o + 1, f + (0 if eager else 1), m + (1 if mat else 0))
+                key = by_payload.get(id(n.payload), n.name)  # two leaves may share a name; payloads tell them apart
+                o, f, m = prof.get(key, (0, 0, 0))
+                prof[key] = (o + 1, f + (0 if eager else 1), m + (1 if mat else 0))
             case UnaryOperationRelation():
                 w(n.target, eager or isinstance(n.operation, EAGER_OPS), mat)
             case BinaryOperationRelation():
@@ -202,7 +206,7 @@ class C18(Check):
             return True
         s1 = snap()
         d_exec = delta(s0, s1)
-        prof = leaf_profile(rel, ctx.leaf_payloads.values())
+        prof = leaf_profile(rel, ctx.leaf_payloads.values(), {id(p): n for n, p in ctx.leaf_payloads.items()})
         if not eager:
             tr.count("lazy_trees")
             touched = {n: d for n, d in d_exec.items() if d != (0, 0)}
